@@ -28,7 +28,7 @@ use smallvec::{smallvec, SmallVec};
 
 use ast_grep_config::RuleCollection;
 use ast_grep_core::Pattern;
-use ast_grep_core::{Matcher, StrDoc};
+use ast_grep_core::{MatchStrictness, Matcher, StrDoc};
 use ast_grep_language::Language;
 
 use std::fs::read_to_string;
@@ -153,8 +153,14 @@ pub fn filter_file_pattern<'a>(
   let file_content = read_file(path)?;
   let grep = lang.ast_grep(&file_content);
   let do_match = |ast_grep: AstGrep, matcher: &'a Pattern<SgLang>| {
+    // The literal prefilter is only sound when every terminal of the pattern must occur verbatim:
+    // `ast`/`relaxed`/`signature` may skip unnamed pattern tokens and `signature` ignores text.
+    let must_occur = matches!(
+      matcher.strictness,
+      MatchStrictness::Cst | MatchStrictness::Smart
+    );
     let fixed = matcher.fixed_string();
-    if !fixed.is_empty() && !file_content.contains(&*fixed) {
+    if must_occur && !fixed.is_empty() && !file_content.contains(&*fixed) {
       return None;
     }
     Some(MatchUnit {
